@@ -1,4 +1,8 @@
 use std::time::Instant;
+
+#[global_allocator]
+static GLOBAL: vh::alloc::Counting = vh::alloc::Counting;
+
 use vh::engine::*;
 use vh::props;
 
